@@ -50,6 +50,35 @@ pub enum Frag {
     MbcMode(u8, u8),
     /// stack-pointer arithmetic: ADD SP,-n; LD HL,SP+e; LD (nn),SP; LD SP,HL; ADD SP,+n
     SpOps(u8, u16),
+    /// start an OAM DMA inline (no wait loop) and carry on while it runs:
+    /// page, what follows (0 register code, 1 EI;HALT with a timer wake-up, 2 STOP with a
+    /// timer wake-up, 3 one long straight block, 4 a counted delay loop of 8 + t%32 short blocks
+    /// and then one long straight block, 5 the delay loop and then EI;HALT), timer phase /
+    /// delay, register code
+    DmaBg(u8, u8, u8, Vec<AluSpec>),
+    /// one long straight-line block of register instructions (no terminator inside)
+    LongBlock(Vec<AluSpec>),
+    /// write the P1 select bits, read P1 back and store it in high RAM
+    Joy(u8, u8),
+    /// STOP whose second byte is arbitrary, with a timer wake-up
+    Stop2(u8, u8),
+    /// write IF from software
+    IfWrite(u8),
+    /// EI; NOP; HALT woken by a STAT interrupt (mode 2 always enabled, plus the given mask)
+    HaltStat(u8),
+    /// write DIV (any value resets the divider), then read DIV and TIMA into high RAM
+    DivWrite(u8),
+}
+
+/// relative weights of the device fragments (0 = the default mix)
+#[derive(Clone, Copy, Debug, Default)]
+pub struct Focus {
+    pub timer: u32,
+    pub lcd: u32,
+    pub dma: u32,
+    pub joy: u32,
+    pub serial: u32,
+    pub irq: u32,
 }
 
 #[derive(Clone, Debug, Serialize, Deserialize)]
@@ -660,6 +689,97 @@ pub fn assemble(p: &ProgSpec) -> (RomImage, ProgInfo) {
                 info.uses_far_call = true;
                 a.call(0x3ff8);
             }
+            Frag::DmaBg(page, follow, t, body) => {
+                info.uses_dma = true;
+                let pages = [0xc0u8, 0xc3, 0xd0, 0x80, 0x90, 0x00, 0x10, 0x40, 0x7f, 0xa0, 0xdd, 0xc1, 0xd5];
+                a.ld_a(pages[*page as usize % pages.len()]);
+                a.ldh_a(0x46);
+                let follow = *follow % 6;
+                if follow >= 4 {
+                    // LD B,n; DEC B; JR NZ,-3 : n blocks of 4 machine cycles
+                    // (the transfer is then between a quarter and all of the way through)
+                    a.bs(&[0x06, 8 + (*t % 32), 0x05, 0x20, 0xfd]);
+                }
+                match follow {
+                    0 => emit_alu(&mut a, &table, &body[..body.len().min(12)]),
+                    1 | 5 => {
+                        info.uses_halt = true;
+                        info.uses_timer = true;
+                        a.ld_a(0xf0 | (*t & 0x0f));
+                        a.ldh_a(0x05);
+                        a.ld_a(0x05);
+                        a.ldh_a(0x07);
+                        a.bs(&[0xf0, 0xff, 0xf6, 0x04, 0xe0, 0xff]);
+                        a.b(0xfb);
+                        a.b(0x76);
+                        a.b(0x00);
+                    }
+                    2 => {
+                        info.uses_stop = true;
+                        info.uses_timer = true;
+                        a.ld_a(0xf8 | (*t & 0x07));
+                        a.ldh_a(0x05);
+                        a.ld_a(0x05);
+                        a.ldh_a(0x07);
+                        a.bs(&[0xf0, 0xff, 0xf6, 0x04, 0xe0, 0xff]);
+                        a.b(0xfb);
+                        a.bs(&[0x10, 0x00]);
+                    }
+                    3 => emit_alu(&mut a, &table, &body[..body.len().min(90)]),
+                    _ => {
+                        // at least 88 instructions in one block, whatever the generated length
+                        let mut long: Vec<AluSpec> = body[..body.len().min(90)].to_vec();
+                        let mut k = 0usize;
+                        while long.len() < 88 {
+                            let next = if body.is_empty() { (0u16, 0u8, 0u8) } else { body[k % body.len()] };
+                            long.push(next);
+                            k += 1;
+                        }
+                        emit_alu(&mut a, &table, &long);
+                    }
+                }
+            }
+            Frag::LongBlock(body) => emit_alu(&mut a, &table, &body[..body.len().min(90)]),
+            Frag::Joy(sel, slot) => {
+                a.ld_a(*sel & 0x30);
+                a.ldh_a(0x00);
+                a.bs(&[0xf0, 0x00]);
+                a.ldh_a(0xa0 + (*slot & 0x3f));
+            }
+            Frag::Stop2(t, second) => {
+                info.uses_stop = true;
+                info.uses_timer = true;
+                a.ld_a(0xf8 | (*t & 0x07));
+                a.ldh_a(0x05);
+                a.ld_a(0x05);
+                a.ldh_a(0x07);
+                a.bs(&[0xf0, 0xff, 0xf6, 0x04, 0xe0, 0xff]);
+                a.b(0xfb);
+                a.bs(&[0x10, *second]);
+            }
+            Frag::IfWrite(v) => {
+                a.ld_a(*v & 0x1f);
+                a.ldh_a(0x0f);
+            }
+            Frag::DivWrite(v) => {
+                a.ld_a(*v);
+                a.ldh_a(0x04);
+                a.bs(&[0xf0, 0x04]);
+                a.ldh_a(0xa0 + (*v & 0x3f));
+                a.bs(&[0xf0, 0x05]);
+                a.ldh_a(0xa0 + ((*v >> 1) & 0x3f));
+            }
+            Frag::HaltStat(mask) => {
+                info.uses_halt = true;
+                info.uses_stat = true;
+                a.ld_a(0x20 | ((*mask & 0x0f) << 3));
+                a.ldh_a(0x41);
+                a.bs(&[0xf0, 0xff, 0xf6, 0x02, 0xe0, 0xff]); // IE |= STAT
+                a.b(0xfb);
+                a.b(0x00);
+                a.b(0x76);
+                a.b(0x00);
+            }
         }
         if a.pc() > 0x0d00 {
             break;
@@ -677,6 +797,10 @@ pub fn alu_vec(max: usize) -> impl Strategy<Value = Vec<AluSpec>> {
 }
 
 pub fn frag_strategy() -> impl Strategy<Value = Frag> {
+    frag_strategy_focus(Focus::default())
+}
+
+pub fn frag_strategy_focus(f: Focus) -> impl Strategy<Value = Frag> {
     prop_oneof![
         4 => alu_vec(12).prop_map(Frag::Alu),
         4 => (any::<u16>(), prop::collection::vec((any::<u8>(), any::<u8>()), 1..10)).prop_map(|(s, o)| Frag::Mem(s, o)),
@@ -687,26 +811,37 @@ pub fn frag_strategy() -> impl Strategy<Value = Frag> {
         1 => any::<u8>().prop_map(Frag::JumpTable),
         3 => (any::<u8>(), any::<u8>()).prop_map(|(b, s)| Frag::FarCall(b, s)),
         2 => any::<u8>().prop_map(Frag::RamCode),
-        1 => any::<u8>().prop_map(Frag::Dma),
-        2 => (any::<u8>(), any::<u8>(), any::<u8>()).prop_map(|(a, b, c)| Frag::TimerCfg(a, b, c)),
-        2 => (any::<u8>(), any::<u8>()).prop_map(|(a, b)| Frag::StatCfg(a, b)),
-        2 => any::<u8>().prop_map(Frag::IrqCfg),
-        2 => any::<u8>().prop_map(Frag::EiHalt),
+        1 + 2 * f.dma => any::<u8>().prop_map(Frag::Dma),
+        2 + 3 * f.timer => (any::<u8>(), any::<u8>(), any::<u8>()).prop_map(|(a, b, c)| Frag::TimerCfg(a, b, c)),
+        2 + 3 * f.lcd => (any::<u8>(), any::<u8>()).prop_map(|(a, b)| Frag::StatCfg(a, b)),
+        2 + f.irq => any::<u8>().prop_map(Frag::IrqCfg),
+        2 + 2 * f.timer => any::<u8>().prop_map(Frag::EiHalt),
         1 => alu_vec(8).prop_map(Frag::DiSection),
-        2 => prop::collection::vec((any::<u8>(), prop_oneof![Just(0x81u8), Just(0x80), Just(0x01), Just(0x00), any::<u8>()], any::<u8>()), 1..5).prop_map(Frag::Serial),
+        2 + 4 * f.serial => prop::collection::vec((any::<u8>(), prop_oneof![Just(0x81u8), Just(0x80), Just(0x01), Just(0x00), any::<u8>()], any::<u8>()), 1..5).prop_map(Frag::Serial),
         1 => any::<bool>().prop_map(Frag::Ime),
-        1 => any::<u8>().prop_map(Frag::Stop),
+        1 + f.timer => any::<u8>().prop_map(Frag::Stop),
         1 => Just(Frag::FallThrough),
         1 => (any::<u8>(), any::<u8>()).prop_map(|(m, u)| Frag::MbcMode(m, u)),
         1 => (any::<u8>(), any::<u16>()).prop_map(|(n, s)| Frag::SpOps(n, s)),
         1 => (prop_oneof![any::<u8>(), Just(0x11u8), Just(0x91u8), Just(0x00u8)], any::<u8>(), any::<u8>()).prop_map(|(l, a, b)| Frag::LcdCfg(l, a, b)),
+        1 + 4 * f.dma + f.serial => (any::<u8>(), any::<u8>(), any::<u8>(), alu_vec(90)).prop_map(|(p, k, t, b)| Frag::DmaBg(p, k, t, b)),
+        1 + f.dma + f.serial => alu_vec(90).prop_map(Frag::LongBlock),
+        1 + 4 * f.joy => (any::<u8>(), any::<u8>()).prop_map(|(s, k)| Frag::Joy(s, k)),
+        1 + f.timer => (any::<u8>(), any::<u8>()).prop_map(|(t, b)| Frag::Stop2(t, b)),
+        1 + 2 * f.irq + f.joy => any::<u8>().prop_map(Frag::IfWrite),
+        1 + 2 * f.lcd => any::<u8>().prop_map(Frag::HaltStat),
+        1 + 2 * f.timer => any::<u8>().prop_map(Frag::DivWrite),
     ]
 }
 
 pub fn prog_strategy(max_frags: usize) -> impl Strategy<Value = ProgSpec> {
+    prog_strategy_focus(max_frags, Focus::default())
+}
+
+pub fn prog_strategy_focus(max_frags: usize, focus: Focus) -> impl Strategy<Value = ProgSpec> {
     (
         (any::<bool>(), any::<u8>(), any::<u8>(), any::<u8>(), any::<u8>(), any::<u8>(), any::<u8>(), any::<bool>()),
-        prop::collection::vec(frag_strategy(), 1..max_frags),
+        prop::collection::vec(frag_strategy_focus(focus), 1..max_frags),
         prop::collection::vec((0u8..6, alu_vec(6)).prop_map(|(kind, body)| Isr { kind, body }), 5),
         prop::collection::vec(alu_vec(12), NSUBS),
         any::<u16>(),
